@@ -407,7 +407,55 @@ func factsOnPath(cond ssa.Value, truth bool, path []*ssa.BasicBlock, depth int) 
 		}
 		return Facts(cond, truth), true
 	}
-	return Facts(cond, truth), true
+	return resolveFactOperands(Facts(cond, truth), path), true
+}
+
+// resolveFactOperands adds, for every comparison whose operand is a phi entered along the
+// path, the same comparison on the value that phi took on this path (`err = phi(e1, e2)` then
+// `err != nil` says e2 != nil when the path came in through the edge of e2).
+func resolveFactOperands(fs []Fact, path []*ssa.BasicBlock) []Fact {
+	out := fs
+	for _, f := range fs {
+		if f.Op == token.ILLEGAL {
+			continue
+		}
+		x, y := ResolveOnPath(f.X, path), ResolveOnPath(f.Y, path)
+		if x != f.X || y != f.Y {
+			out = append(out, Fact{Op: f.Op, X: x, Y: y, Truth: f.Truth})
+		}
+	}
+	return out
+}
+
+// ResolveOnPath follows v through phis whose block the path entered, taking the incoming value.
+func ResolveOnPath(v ssa.Value, path []*ssa.BasicBlock) ssa.Value {
+	for depth := 0; depth < 6; depth++ {
+		ph, ok := v.(*ssa.Phi)
+		if !ok {
+			return v
+		}
+		found := false
+		for i := len(path) - 1; i >= 1 && !found; i-- {
+			if path[i] != ph.Block() {
+				continue
+			}
+			for ei, p := range ph.Block().Preds {
+				if p == path[i-1] {
+					v = ph.Edges[ei]
+					path = path[:i]
+					found = true
+					break
+				}
+			}
+			if !found {
+				return v
+			}
+		}
+		if !found {
+			return v
+		}
+	}
+	return v
 }
 
 // CutSpecPS is CutSpec with a facts-based cut predicate evaluated path-sensitively.
